@@ -969,47 +969,83 @@ def shift_lower_bounds(ck, F, rule="GRID-GUARD"):
             n += len(stores)
 
 
+def _col_min_sites(b, COL):
+    """(locals that are copies of a stored descriptor's Col.min, stores into a new descriptor's Col.min) of a body"""
+    mn, stores = [], []
+    for bi, si, st in b.stmts():
+        if not place_proj(st["p"]) and st["rv"]["k"] == "use":
+            src = op_place(st["rv"]["o"])
+            if src is not None and place_proj(src):
+                pj = place_proj(b.resolve_place(src, through_named=True))
+                if pj and pj[-1][0] == "f" and (pj[-1][3], pj[-1][2]) == (COL, "min") and any(e[0] == "*" for e in pj):
+                    mn.append(st["p"]["l"])
+        if place_proj(st["p"]) and st["rv"]["k"] == "use":
+            pj = place_proj(b.resolve_place(st["p"], through_named=False))
+            if pj and pj[-1][0] == "f" and (pj[-1][3], pj[-1][2]) == (COL, "min") and not any(e[0] == "*" for e in pj):
+                stores.append((bi, si, st))
+    return mn, stores
+
+
 def descriptor_order(ck, F, rule="GRID-GUARD"):
     """Column descriptors stay sorted and disjoint under delete_columns: a descriptor that starts to the right of the
     first deleted column still starts at or after it afterwards -- it cannot land left of the deleted block, on top of
     its left neighbour.  Decided by the zone engine on Model::delete_columns with column_count instantiated to 1, 2 and
     3 (so that column_end = column + column_count - 1 is linear): at every store into `<new descriptor>.min`, if the
-    state entails column_start < min then it entails column_start <= stored value."""
+    state entails column_start < min then it entails column_start <= stored value.  When the rebuild lives in a private
+    helper of the same file, the helper is analysed instead, from an entry state made of what delete_columns' state
+    entails about the integer arguments at the call (one level of context-sensitive inlining)."""
     import zones
     from effects import Program
     COL = "ironcalc_base::types::Col"
-    b = ck.need(F.one, "model::Model::delete_columns")
+    b0 = ck.need(F.one, "model::Model::delete_columns")
     P = Program(F)
-    names = {b.local_name(i): i for i in range(1, b.nargs + 1)}
-    # first deleted column: the `column` parameter (any local copy of it is equal to it in the zone state);
-    # a descriptor's start: every local that is a copy of a `Col.min` field read through a reference to a stored descriptor
-    cs = [names["column"]] if "column" in names else []
-    mn = []
-    for bi, si, st in b.stmts():
-        if place_proj(st["p"]) or st["rv"]["k"] != "use":
-            continue
-        src = op_place(st["rv"]["o"])
-        if src is None or not place_proj(src):
-            continue
-        pj = place_proj(b.resolve_place(src, through_named=True))
-        if pj and pj[-1][0] == "f" and (pj[-1][3], pj[-1][2]) == (COL, "min") and any(e[0] == "*" for e in pj):
-            mn.append(st["p"]["l"])
-    ck.ob(rule, "delete_columns|anchors", "column_count" in names and len(cs) == 1 and len(mn) >= 1,
-          "delete_columns: column_count / column / a copy of Col.min not found", b.file, b.line)
-    if "column_count" not in names or len(cs) != 1 or not mn:
+    names = {b0.local_name(i): i for i in range(1, b0.nargs + 1)}
+    if "column_count" not in names or "column" not in names:
+        ck.ob(rule, "delete_columns|anchors", False, "delete_columns: parameters column / column_count not found", b0.file, b0.line)
         return
-    cs_t = "_%d" % cs[0]
-    stores = []
-    for bi, si, s in b.stmts():
-        if not place_proj(s["p"]) or s["rv"]["k"] != "use":
-            continue
-        p = b.resolve_place(s["p"], through_named=False)
-        pj = place_proj(p)
-        if pj and pj[-1][0] == "f" and (pj[-1][3], pj[-1][2]) == (COL, "min") and not any(e[0] == "*" for e in pj):
-            stores.append((bi, si, s))
-    ck.ob(rule, "delete_columns|min-stores", len(stores) >= 2, "expected at least two stores into a new descriptor's min, found %d" % len(stores), b.file, b.line)
+    mn, stores = _col_min_sites(b0, COL)
+    target, call_bi = b0, None
+    if not stores:
+        for bi, t in b0.calls():
+            c = b0.callee(t)
+            hc = F.heads.get(c) if c else None
+            if hc is None or not F.has(c) or hc.get("file") != b0.file or hc.get("vis") in ("pub",):
+                continue
+            hb = F.body(c)
+            m2, s2 = _col_min_sites(hb, COL)
+            if s2:
+                target, call_bi, mn, stores = hb, bi, m2, s2
+                break
+    ck.ob(rule, "delete_columns|anchors", len(mn) >= 1 and len(stores) >= 2,
+          "delete_columns: the rebuild of the column descriptors (copies of Col.min, at least two stores into a new descriptor's min) was "
+          "not found in the function or in a private helper it calls", b0.file, b0.line)
+    if not mn or len(stores) < 2:
+        return
+    b = target
     for k in (1, 2, 3):
-        A = zones.Analysis(b, P, F, assume={names["column_count"]: k})
+        A0 = zones.Analysis(b0, P, F, assume={names["column_count"]: k})
+        if b is b0:
+            A, cs_t = A0, "_%d" % names["column"]
+        else:
+            # which helper parameter receives `column` (the first deleted column)?
+            t = b0.blocks[call_bi]["t"]
+            first = None
+            for key, z in (A0.states_at(call_bi) or []):
+                for i, a in enumerate(t["args"], 1):
+                    la = A0.lin(z, a, "i32") if A0._ty_of_operand(a) == "i32" else None
+                    if la is not None and la == ("_%d" % names["column"], 0):
+                        first = i
+                        break
+                    if la is not None and la[1] == 0 and z.entails(la[0], "_%d" % names["column"], 0) and z.entails("_%d" % names["column"], la[0], 0):
+                        first = i
+                        break
+                break
+            if first is None:
+                ck.ob(rule, "delete_columns|count=%d|helper arguments" % k, False,
+                      "the helper %s does not receive the first deleted column as an argument" % b.name, b0.file, b0.line)
+                continue
+            A = zones.Analysis(b, P, F, entry_rel=A0.call_entry_relations(call_bi))
+            cs_t = "_%d" % first
         for n, (bi, si, s) in enumerate(stores, 1):
             ok = True
             checked = 0
@@ -1033,7 +1069,7 @@ def descriptor_order(ck, F, rule="GRID-GUARD"):
             ck.ob(rule, "delete_columns|count=%d|min-store#%d stays right of the deleted block" % (k, n), ok,
                   "delete_columns (column_count = %d) can store a descriptor start smaller than column_start for a descriptor that began to the "
                   "right of it: the descriptor lands on its left neighbour (overlapping / unsorted column descriptors)" % k, f, l,
-                  sample={"column_count": k, "states_checked": checked})
+                  sample={"column_count": k, "states_checked": checked, "analysed": b.name})
 
 
 def full_flags(ck, F, rule="FULL-RANGE"):
@@ -1425,3 +1461,189 @@ def mirror_rule(ck, F, groups, rule="MIRROR", arms=False):
             ck.ob(rule, "stringify_reference|%s arm mirrors %s arm" % (a, c), sa == sc,
                   "the DisplaceData::%s and ::%s arms of stringify_reference are no longer mirror images: only in %s %s, only in %s %s"
                   % (a, c, a, d1, c, d2), f, l, sample={"arms": [a, c], "atoms": len(sa)})
+
+
+# ------------------------------------------------------------------------------------------------ BAND (C15, C27, C33)
+def _band_norm(b, o, pos, depth=0):
+    """(base, offset) with base in {"pos", "target"} when operand o is `pos + c` or `pos + delta + c` for the position
+    parameter `pos` of a single-row/column move (through copies, checked arithmetic with constants and captured variables);
+    None for anything else (the element being tested)."""
+    if depth > 10:
+        return None
+    if o.get("k") is not None:
+        return None
+    pl = op_place(o)
+    if pl is None:
+        return None
+    sr = sources(b, o)
+    ups = {x[1] for x in sr if x[0] == "upvar"}
+    if ups and len(ups) == 1 and not any(x[0] in ("field", "call", "param", "arith") for x in sr) and b.facts is not None:
+        # a captured local of the enclosing function (`target_row`): normalise it where it is defined
+        par = b.facts.heads.get(b.path, {}).get("parent")
+        if par and b.facts.has(par):
+            pb = b.facts.body(par)
+            ls = pb.local_by_name(next(iter(ups)))
+            if len(ls) == 1:
+                return _band_norm(pb, {"c": {"l": ls[0]}}, pos, depth + 1)
+        return None
+    params = {x[1] for x in sr if x[0] == "param"}
+    if not params or not params <= {pos, "delta"} or any(x[0] in ("field", "call", "upvar") for x in sr):
+        return None
+    if pos not in params:
+        return None
+    base = "target" if "delta" in params else "pos"
+    # constant offset: follow the definition chain
+    off = _band_offset(b, o, 0)
+    if off is None:
+        return None
+    return (base, off)
+
+
+def _band_offset(b, o, depth):
+    if depth > 10:
+        return None
+    if o.get("k") is not None:
+        return None
+    pl = op_place(o)
+    if pl is None:
+        return None
+    pj = place_proj(pl)
+    l = pl["l"]
+    if 1 <= l <= b.nargs:
+        return 0          # a parameter, or (for a closure) a captured variable read through the environment
+    ds = b.defs().get(l, [])
+    if len(ds) != 1 or ds[0][1] == "t":
+        return None
+    rv = b.blocks[ds[0][0]]["s"][ds[0][1]]["rv"]
+    if rv["k"] in ("use", "cast"):
+        return _band_offset(b, rv["o"], depth + 1)
+    if rv["k"] == "ref":
+        return _band_offset(b, {"c": rv["p"]}, depth + 1)
+    if rv["k"] == "bin":
+        op = rv["op"].replace("WithOverflow", "").replace("Unchecked", "")
+        ca, cb = const_int(rv["a"]), const_int(rv["b"])
+        if op == "Add":
+            if cb is not None:
+                r = _band_offset(b, rv["a"], depth + 1)
+                return None if r is None else r + cb
+            if ca is not None:
+                r = _band_offset(b, rv["b"], depth + 1)
+                return None if r is None else r + ca
+            ra, rb = _band_offset(b, rv["a"], depth + 1), _band_offset(b, rv["b"], depth + 1)
+            return None if ra is None or rb is None else ra + rb       # pos + delta
+        if op == "Sub" and cb is not None:
+            r = _band_offset(b, rv["a"], depth + 1)
+            return None if r is None else r - cb
+        return None
+    return None
+
+
+def _band_sign(b, bi):
+    """'up' / 'down' when block bi only runs under `delta > 0` / `delta < 0` (nearest such test whose true edge dominates
+    it); None otherwise."""
+    best = None
+    for d in sorted(b.dominators_of(bi)):
+        t = b.term(d)
+        if t["k"] != "switch" or t["ty"] != "bool" or d == bi:
+            continue
+        tr = b.trace(t["o"])
+        if tr["kind"] != "rv" or tr["rv"]["k"] != "bin" or tr["rv"]["op"] not in ("Gt", "Lt"):
+            continue
+        rv = tr["rv"]
+        if const_int(rv["b"]) != 0:
+            continue
+        if {x[1] for x in sources(b, rv["a"]) if x[0] == "param"} != {"delta"}:
+            continue
+        true_t = t["otherwise"]
+        false_t = [x for v, x in t["targets"] if v == "0"]
+        if b.dominates(true_t, bi):
+            best = "down" if rv["op"] == "Gt" else "up"
+        elif false_t and b.dominates(false_t[0], bi) and false_t[0] != true_t:
+            # the else branch of `if delta > 0 { .. } else { .. }` (a zero delta returned earlier)
+            best = "up" if rv["op"] == "Gt" else "down"
+    return best
+
+
+def band_agree(ck, F, rule="BAND"):
+    """One move, one band: when a single row (column) moves by `delta`, the rows between its old and its new position
+    shift by one.  move_row_unchecked / move_column_unchecked describe that band several times -- the loop that relocates
+    the cells, the closure that relocates hyperlinks, the rebuild of the row descriptors -- as ranges or as pairs of
+    comparisons.  Each description is normalised to an inclusive interval [lo, hi] over {pos, target = pos + delta} with
+    constant offsets (`x > pos` -> lo = pos + 1, `pos + 1..=target` -> [pos + 1, target] ...), per direction of the move;
+    all descriptions of one function, and of its row/column sibling, must be the same interval."""
+    table = {}
+    for fn, pos in (("move_row_unchecked", "row"), ("move_column_unchecked", "column")):
+        b0 = ck.need(F.one, "model::Model::" + fn)
+        for b in unit_bodies(F, b0):
+            unit0 = "cells" if b is b0 else "links closure"
+            # (a) comparisons element OP bound
+            acc = {}
+            for bi, blk in enumerate(b.blocks):
+                t = blk["t"]
+                if t["k"] != "switch" or t["ty"] != "bool":
+                    continue
+                tr = b.trace(t["o"])
+                if tr["kind"] != "rv" or tr["rv"]["k"] != "bin" or tr["rv"]["op"] not in ("Lt", "Le", "Gt", "Ge"):
+                    continue
+                rv = tr["rv"]
+                na, nb = _band_norm(b, rv["a"], pos), _band_norm(b, rv["b"], pos)
+                if (na is None) == (nb is None):
+                    continue
+                op = rv["op"]
+                if na is not None:       # bound OP element  ->  element OP' bound
+                    op = {"Lt": "Gt", "Le": "Ge", "Gt": "Lt", "Ge": "Le"}[op]
+                    bound, elem = na, rv["b"]
+                else:
+                    bound, elem = nb, rv["a"]
+                sign = _band_sign(b, bi)
+                if sign is None:
+                    continue
+                es = sources(b, elem)
+                unit = unit0
+                if any(x[0] == "field" and x[1].endswith("::Row") and x[2] == "r" for x in es):
+                    unit = "row descriptors"
+                elif any(x[0] == "field" and x[1].endswith("::Col") for x in es):
+                    unit = "column descriptors"
+                lo_hi = acc.setdefault((unit, sign), {"lo": set(), "hi": set(), "loc": b.loc(bi)})
+                if op == "Gt":
+                    lo_hi["lo"].add((bound[0], bound[1] + 1))
+                elif op == "Ge":
+                    lo_hi["lo"].add(bound)
+                elif op == "Lt":
+                    lo_hi["hi"].add((bound[0], bound[1] - 1))
+                elif op == "Le":
+                    lo_hi["hi"].add(bound)
+            # (b) inclusive ranges pos+1..=target
+            for bi, t in b.calls():
+                q = b.callee_q(t) or ""
+                if not q.endswith("RangeInclusive::<Idx>::new") and not q.endswith("RangeInclusive::new"):
+                    continue
+                if len(t["args"]) != 2:
+                    continue
+                lo, hi = _band_norm(b, t["args"][0], pos), _band_norm(b, t["args"][1], pos)
+                sign = _band_sign(b, bi)
+                if lo is None or hi is None or sign is None:
+                    continue
+                lo_hi = acc.setdefault(("cells loop", sign), {"lo": set(), "hi": set(), "loc": b.loc(bi)})
+                lo_hi["lo"].add(lo)
+                lo_hi["hi"].add(hi)
+            for (unit, sign), v in acc.items():
+                table[(fn, unit, sign)] = (frozenset(v["lo"]), frozenset(v["hi"]), v["loc"])
+    ck.ob(rule, "descriptions", len(table) >= 8, "only %d descriptions of the shifted band found in move_row_unchecked / move_column_unchecked "
+          "(expected cells loop, links closure and row descriptors, in both directions): anchor lost" % len(table))
+    for sign in ("down", "up"):
+        items = {k: v for k, v in table.items() if k[2] == sign}
+        if not items:
+            continue
+        # the reference interval: the most common description
+        from collections import Counter
+        cnt = Counter((v[0], v[1]) for v in items.values())
+        ref = cnt.most_common(1)[0][0]
+        for (fn, unit, sg), (lo, hi, loc) in sorted(items.items()):
+            def show(x):
+                return sorted("%s%+d" % (bse, off) if off else bse for bse, off in x)
+            ck.ob(rule, "%s|%s|delta %s 0" % (fn, unit, ">" if sign == "down" else "<"), (lo, hi) == ref,
+                  "%s: the %s shift the band [%s, %s] when delta %s 0, the other descriptions of the same move shift [%s, %s]: one of them is off by "
+                  "one, so what it relocates (cells, links or descriptors) parts from the rest"
+                  % (fn, unit, show(lo), show(hi), ">" if sign == "down" else "<", show(ref[0]), show(ref[1])), loc[0], loc[1],
+                  sample={"fn": fn, "unit": unit, "direction": sign, "lo": show(lo), "hi": show(hi)})
